@@ -55,6 +55,14 @@ pub const ADMIN_TOKEN: &str = "adm-7f3c9e2b41d8a6c05e17";
 pub const HMI_WRITE_ID: &str = "resource/ZQRES/program/Main/field/run";
 /// Substrings that only occur in runtime data (never in a request unless the request
 /// itself carried them).
+/// configuration keys that have a probe part `cfg:<key>` of their own
+pub const PROBED_CONFIG_KEYS: &[&str] = &[
+    "log.level", "watchdog.enabled", "watchdog.timeout_ms", "watchdog.action", "fault.policy",
+    "retain.mode", "retain.save_interval_ms", "web.enabled", "web.listen", "web.auth", "web.tls",
+    "discovery.enabled", "discovery.service_name", "discovery.advertise", "discovery.interfaces",
+    "mesh.enabled", "mesh.listen", "mesh.tls", "mesh.auth_token", "mesh.publish", "mesh.subscribe",
+    "control.auth_token", "control.mode", "control.debug_enabled",
+];
 pub const CANARIES: &[&str] = &["zq_canary", "ZQRES", "31337", "zqfault", "zqtask"];
 
 #[derive(Clone, Copy, Debug, PartialEq, Eq, Serialize, Deserialize)]
@@ -576,6 +584,41 @@ impl Fixture {
             "settings",
             st.settings.lock().map(|s| format!("{:?}", *s)).unwrap_or_default(),
         ));
+        // one part per configuration key (canonical spelling), so that a change can be
+        // attributed to the setting that was effectively applied, however the request spelt it
+        if let Ok(cfgs) = st.settings.lock() {
+            let c = &*cfgs;
+            parts.push(("cfg:log.level", c.log_level.to_string()));
+            parts.push(("cfg:watchdog.enabled", c.watchdog.enabled.to_string()));
+            parts.push(("cfg:watchdog.timeout_ms", format!("{:?}", c.watchdog.timeout)));
+            parts.push(("cfg:watchdog.action", format!("{:?}", c.watchdog.action)));
+            parts.push(("cfg:fault.policy", format!("{:?}", c.fault_policy)));
+            parts.push(("cfg:retain.mode", format!("{:?}", c.retain_mode)));
+            parts.push(("cfg:retain.save_interval_ms", format!("{:?}", c.retain_save_interval)));
+            parts.push(("cfg:web.enabled", c.web.enabled.to_string()));
+            parts.push(("cfg:web.listen", c.web.listen.to_string()));
+            parts.push(("cfg:web.auth", c.web.auth.to_string()));
+            parts.push(("cfg:web.tls", c.web.tls.to_string()));
+            parts.push(("cfg:discovery.enabled", c.discovery.enabled.to_string()));
+            parts.push(("cfg:discovery.service_name", c.discovery.service_name.to_string()));
+            parts.push(("cfg:discovery.advertise", c.discovery.advertise.to_string()));
+            parts.push(("cfg:discovery.interfaces", format!("{:?}", c.discovery.interfaces)));
+            parts.push(("cfg:mesh.enabled", c.mesh.enabled.to_string()));
+            parts.push(("cfg:mesh.listen", c.mesh.listen.to_string()));
+            parts.push(("cfg:mesh.tls", c.mesh.tls.to_string()));
+            parts.push(("cfg:mesh.auth_token", format!("{:?}", c.mesh.auth_token)));
+            parts.push(("cfg:mesh.publish", format!("{:?}", c.mesh.publish)));
+            parts.push(("cfg:mesh.subscribe", format!("{:?}", c.mesh.subscribe)));
+        }
+        parts.push((
+            "cfg:control.auth_token",
+            st.auth_token.lock().map(|s| format!("{:?}", *s)).unwrap_or_default(),
+        ));
+        parts.push((
+            "cfg:control.mode",
+            st.control_mode.lock().map(|s| format!("{:?}", *s)).unwrap_or_default(),
+        ));
+        parts.push(("cfg:control.debug_enabled", st.debug_enabled.load(Ordering::SeqCst).to_string()));
         parts.push((
             "pending_restart",
             st.pending_restart.lock().map(|s| format!("{:?}", *s)).unwrap_or_default(),
